@@ -194,7 +194,7 @@ CHECKS = {
               "column maximum - bit-precise for int8, and for int16 under the standard rounding model plus an exhaustive "
               "enumeration of all 2.1e9 float32 values on the real code in every run; monotonicity of IEEE division as a library "
               "axiom), zeros are reproduced exactly, the extracted diagonal is stored and returned bit-for-bit; the half-bucket "
-              "bound under the standard rounding model, with and without extract_diagonal; idempotence of the integers in the thorough tier. Known finding: "
+              "bound under the standard rounding model, with and without extract_diagonal; idempotence of the integers is NOT proved (bounded native check only). Known finding: "
               "overflow to inf within one rounding of FLT_MAX."),
         design="7/C11",
         note=TB + " Float model as in C03; astype(int) of an integral in-range float is exact; IEEE division is monotone in |dividend|; "
